@@ -250,3 +250,31 @@ Definition py_add_as_source (src dst : pyrecord) : pyrecord :=
   PR (pr_kind dst) (pr_seq dst) (pr_id dst)
      (pr_features dst ++ [source_feature (pr_id src) (py_len (pr_seq dst))])
      (pr_annotations dst) (pr_letter_annotations dst).
+
+(* ---------- AssemblyManager ---------------------------------------------- *)
+
+Record asmgr := mk_AssemblyManager {
+  am_vector : entity; am_modules : list entity; am_elements : list entity; am_name : unit; am_id : unit }.
+
+(* dictionary keys are Seq objects: equal when their text is equal (case-sensitive) *)
+Definition seq_keq (a b : pyrecord) : bool := word_eqb (pr_seq a) (pr_seq b).
+
+(* d[k] and d.pop(k): KeyError carries the key *)
+Definition dict_getitem {V} (keq : pyrecord -> pyrecord -> bool) (d : list (pyrecord * V)) (k : pyrecord) : exc V :=
+  match dict_get keq d k with Some v => Ok v | None => Err (XKeyError (pr_seq k)) end.
+Definition dict_pop {V} (keq : pyrecord -> pyrecord -> bool) (d : list (pyrecord * V)) (k : pyrecord)
+  : exc (V * list (pyrecord * V)) :=
+  match dict_get keq d k with Some v => Ok (v, dict_remove keq d k) | None => Err (XKeyError (pr_seq k)) end.
+
+(* SeqRecord(seq) with default id, no features, empty annotations *)
+Definition mk_SeqRecord1 (seq : pyrecord) : pyrecord := PR KSeqRecord (pr_seq seq) 0 [] None [].
+
+(* CircularRecord(record) (record.py:43-85): copies the record; a topology annotation other
+   than "circular" (any case) is refused with ValueError *)
+Definition bio_CircularRecord_of (r : pyrecord) : exc pyrecord :=
+  match pr_annotations r with
+  | Some t => if String.eqb (str_lower t) "circular" then
+                Ok (PR KCircularRecord (pr_seq r) (pr_id r) (pr_features r) (pr_annotations r) (pr_letter_annotations r))
+              else Err XValueError
+  | None => Ok (PR KCircularRecord (pr_seq r) (pr_id r) (pr_features r) None (pr_letter_annotations r))
+  end.
